@@ -24,7 +24,6 @@ import (
 	"errors"
 	"fmt"
 	"os"
-	"path/filepath"
 	"strings"
 
 	"github.com/tsawler/tabula"
@@ -302,11 +301,11 @@ func drmCase(e *harness.Env, desc string, assign [5]int, obfAlg, cipherAlg, form
 	var err error
 	sig, det := harness.Guard(func() {
 		if api == "tabula.Open" {
-			path := filepath.Join(scratchDir, "drm.epub")
+			path, done := casePath("drm.epub")
+			defer done()
 			if werr := os.WriteFile(path, data, 0o644); werr != nil {
 				panic(werr)
 			}
-			defer os.Remove(path)
 			x := tabula.Open(path)
 			defer x.Close()
 			text, _, err = x.Text()
